@@ -202,6 +202,34 @@ func streamEngine(t *testing.T, o *Out, p EngProfile) {
 		o.Count("corpus")
 		emit(c, "corpus-"+parts[1]+"-", true)
 	}
+	stmtFaults := func(c *EngCase) {
+		// statement-level faults, below the Manager/Traverser interface: the k-th SQL statement of the check
+		// is cancelled right before it is sent (a storage call may send several: page loops, probes). The
+		// line carries the storage call the statement belonged to as its fault position, so the model says
+		// what happens when that call fails as a whole; a statement error that the storage layer swallows
+		// shows as an answer without error that differs from it (column sres: judged by the oracle only).
+		if !env.hung {
+			env.stmtMode, env.stmtAt = true, 0
+			env.runCheck(c, true)
+			nst := env.lastStmts
+			if nst > 14 {
+				nst = 14
+			}
+			for k := int64(1); k <= nst && !env.hung; k++ {
+				env.stmtAt = k
+				res, _ := env.runCheck(c, true)
+				if env.lastStmtCall == 0 {
+					continue
+				}
+				fc := *c
+				fc.FaultAt, fc.FaultPersis = int(env.lastStmtCall), false
+				id++
+				o.Emit("engine", fmt.Sprintf("s%d", id), fc.Payload(), fmt.Sprintf("sres=%s\tx_stmt=%d of %d", res, k, env.lastStmts), true)
+				o.Count("statement-fault-cases")
+			}
+			env.stmtMode, env.stmtAt = false, 0
+		}
+	}
 	for i := 0; i < n && !env.hung; i++ {
 		c := genEngCase(r, p)
 		if err := env.prepare(c, o); err != nil {
@@ -279,6 +307,7 @@ func streamEngine(t *testing.T, o *Out, p EngProfile) {
 					o.Count("fault-cases")
 				}
 			}
+			stmtFaults(c)
 		case p.DepthGrid:
 			// several queries per stored state, over a grid of (request depth, global depth, width)
 			for _, g := range []int{1, 2, 3, 5, 8} {
@@ -302,6 +331,10 @@ func streamEngine(t *testing.T, o *Out, p EngProfile) {
 		default:
 			emit(c, "g", true)
 			extraCol = ""
+			if p.Wide {
+				// very wide nodes: the storage layer's own page loops and probes send several statements per call
+				stmtFaults(c)
+			}
 			// more queries on the same state
 			for j := 0; j < 3 && !env.hung; j++ {
 				qc := *c
